@@ -43,7 +43,7 @@ EXHAUSTIVE = {"quick": False, "thorough": False}
 FLOORS = {"quick": {"connect-configurations": 2800, "tls-handshakes": 600,
                     "history-calls": 150, "callables": 10, "random-histories": 1200},
           "thorough": {"connect-configurations": 2800, "tls-handshakes": 600,
-                       "history-calls": 150, "callables": 10, "random-histories": 90000}}
+                       "history-calls": 150, "callables": 10, "random-histories": 450000}}
 SHARD_TIMEOUT = {"quick": 600, "thorough": 3000}
 
 LOGIN, PW = "alice-login", "s3cr3t-passw0rd"
@@ -74,7 +74,7 @@ def plan(tier, seed):
     n = len(connect_cases())
     shards = [{"w": "connect", "range": [s, e]} for s, e in split(n, 15)]
     shards.append({"w": "histories"})
-    nr = 1500 if tier == "quick" else 100000
+    nr = 1500 if tier == "quick" else 500000
     for i, (s, e) in enumerate(split(nr, 8 if tier == "quick" else 48)):
         shards.append({"w": "random-histories", "n": e - s, "rs": seed * 1000003 + i})
     return shards
